@@ -339,6 +339,17 @@ func fileClass(base, p string) string {
 	return "wtfile"
 }
 
+// RecordRunPath is RecordRun with the tracing (and so the counting of when=) restricted to calls on the given paths.
+func (r *Runner) RecordRunPath(argv []string, inject string, logPath string, paths []string) (ExecResult, []FSOp, error) {
+	a := straceArgs(logPath, inject)
+	for _, p := range paths {
+		a = append(a, "-P", p)
+	}
+	x := r.RunArgv(append(a, argv...), straceEnv)
+	ops, err := parseStrace(logPath, r.Base)
+	return x, ops, err
+}
+
 // RecordRun executes argv under strace in r's repository and returns its result and operations.
 func (r *Runner) RecordRun(argv []string, inject string, logPath string) (ExecResult, []FSOp, error) {
 	full := append(straceArgs(logPath, inject), argv...)
